@@ -492,6 +492,254 @@ fn run_case(im: &mut Impl, s: &Spec) -> Outcome {
 }
 
 // ------------------------------------------------------------------------------------------------
+// texts with SEVERAL ordinals (C17_lint_list): the class mctx_ok, the lints the theorem promises, the `M` cases
+// ------------------------------------------------------------------------------------------------
+#[derive(Clone)]
+struct MultiSpec {
+    insts: Vec<(String, String, String)>, // (text in front, digits, two suffix letters)
+    post: String,
+    origin: &'static str,
+}
+impl MultiSpec {
+    fn json(&self) -> Value {
+        json!({"kind": "multi", "insts": self.insts.iter().map(|(p, d, x)| json!([p, d, x])).collect::<Vec<_>>(), "post": self.post, "origin": self.origin})
+    }
+    fn text(&self) -> String {
+        let mut t = String::new();
+        for (p, d, x) in &self.insts {
+            t.push_str(p);
+            t.push_str(d);
+            t.push_str(x);
+        }
+        t.push_str(&self.post);
+        t
+    }
+}
+fn replay_multi(v: &Value) -> Option<MultiSpec> {
+    if v.get("kind").and_then(|k| k.as_str()) != Some("multi") {
+        return None;
+    }
+    let insts = v.get("insts")?.as_array()?.iter().filter_map(|i| {
+        let a = i.as_array()?;
+        Some((a.first()?.as_str()?.to_string(), a.get(1)?.as_str()?.to_string(), a.get(2)?.as_str()?.to_string()))
+    }).collect();
+    Some(MultiSpec { insts, post: v.get("post").and_then(|x| x.as_str()).unwrap_or("").to_string(), origin: "replay" })
+}
+
+/// mirrors C17Texts.mctx_ok (kept in sync by the `M` cases): every stretch in front of a number has no numeric
+/// character, no '[', no '@' and does not end in a word character; the digits are ASCII, non-empty, value < 2^53; the
+/// suffix is one of the 16 casings; what follows a suffix does not start with a word character or a digit; the final
+/// right context has no numeric character and no '@'; no "://", no '.' directly followed by [A-Za-z0-9-]
+fn mctx_covered(cl: &mut Classes, m: &MultiSpec) -> bool {
+    let label = |c: char| c.is_ascii_alphanumeric() || c == '-';
+    let parts: Vec<(Vec<char>, Vec<char>, Vec<char>)> = m.insts.iter().map(|(p, d, x)| (p.chars().collect(), d.chars().collect(), x.chars().collect())).collect();
+    let post: Vec<char> = m.post.chars().collect();
+    for (k, (pre, d, x)) in parts.iter().enumerate() {
+        if pre.iter().any(|&c| cl.bits(c) & 1 != 0 || c == '[' || c == '@') {
+            return false;
+        }
+        if pre.last().map(|&c| cl.bits(c) & 4 != 0).unwrap_or(false) {
+            return false;
+        }
+        if d.is_empty() || !d.iter().all(|c| c.is_ascii_digit()) || !d.iter().collect::<String>().parse::<u128>().map(|v| v < TWO53).unwrap_or(false) {
+            return false;
+        }
+        if x.len() != 2 || !x.iter().all(|c| c.is_ascii_alphabetic()) || !matches!(x.iter().collect::<String>().to_ascii_lowercase().as_str(), "st" | "nd" | "rd" | "th") {
+            return false;
+        }
+        // the first character behind the suffix
+        let next: Option<char> = parts[k + 1..].iter().flat_map(|(p, d, x)| p.iter().chain(d.iter()).chain(x.iter())).chain(post.iter()).next().copied();
+        if let Some(c) = next {
+            if cl.bits(c) & 4 != 0 || c.is_ascii_digit() {
+                return false;
+            }
+        }
+    }
+    if post.iter().any(|&c| cl.bits(c) & 1 != 0 || c == '@') {
+        return false;
+    }
+    let text: Vec<char> = m.text().chars().collect();
+    !text.windows(3).any(|w| w == [':', '/', '/']) && !text.windows(2).any(|w| w[0] == '.' && label(w[1]))
+}
+
+/// what C17_lint_list promises, computed independently from the decimal digits: (start, end, suffix) per wrong instance
+fn multi_expected(m: &MultiSpec) -> Vec<(usize, usize, &'static str)> {
+    let mut off = 0usize;
+    let mut out = vec![];
+    for (p, d, x) in &m.insts {
+        off += p.chars().count() + d.chars().count();
+        let dc: Vec<char> = d.chars().collect();
+        if !dc.is_empty() {
+            let want = ordinal_of_decimal(&dc);
+            if x.to_ascii_lowercase() != want {
+                out.push((off, off + 2, want));
+            }
+        }
+        off += x.chars().count();
+    }
+    out
+}
+
+fn run_multi_case(im: &mut Impl, m: &MultiSpec) -> Outcome {
+    let mut o = Outcome::default();
+    let text = m.text();
+    let chars: Vec<char> = text.chars().collect();
+    let table = im.classes.table(&chars);
+    let covered = m.insts.iter().all(|(_, _, x)| x.chars().count() == 2) && mctx_covered(&mut im.classes, m);
+    if m.insts.iter().any(|(_, _, x)| x.chars().count() != 2) {
+        o.counts.push("multi:not_expressible(suffix is not two characters)".into());
+        return o;
+    }
+    let case = format!(
+        "M {} | {} | {}",
+        m.insts.iter().map(|(p, d, x)| format!("{},{},{}", cps(&p.chars().collect::<Vec<_>>()), cps(&d.chars().collect::<Vec<_>>()), cps(&x.chars().collect::<Vec<_>>()))).collect::<Vec<_>>().join(";"),
+        cps(&m.post.chars().collect::<Vec<_>>()),
+        table
+    );
+    o.counts.push(format!("multi:instances:{}", m.insts.len().min(6)));
+    if !covered {
+        o.cases.push((case, "0".into()));
+        o.counts.push("multi:outside_class".into());
+        return o;
+    }
+    let (toks, lints) = match im.lint(&text) {
+        Ok(v) => v,
+        Err(e) => {
+            o.cases.push((case, "P".into()));
+            o.fails.push(("panic", format!("Document::new / LintGroup::lint panicked on a text with {} ordinals: {e} at {}", m.insts.len(), last_panic_location())));
+            return o;
+        }
+    };
+    let got: Vec<String> = lints.iter().map(|l| format!("{} {} {}", l.span.start, l.span.end, l.suggestions.iter().map(sug_str).collect::<Vec<_>>().join("/"))).collect();
+    o.cases.push((case, format!("1 # {}", got.join(";")).trim().to_string()));
+    // search only (no theorem states it for the final document): after the merges the tokens still follow one another
+    // without overlap — a suffix word that survives next to its merged number (mutation d9) shows here
+    if let Some(w) = toks.windows(2).find(|w| w[0].span.end > w[1].span.start) {
+        o.fails.push(("tokens_overlap", format!("tokens {}..{} and {}..{} of the document overlap (a condensed suffix word survived?)", w[0].span.start, w[0].span.end, w[1].span.start, w[1].span.end)));
+    }
+    let want = multi_expected(m);
+    let want_s: Vec<String> = want.iter().map(|(s, e, x)| format!("{} {} {}", s, e, cps(&x.chars().collect::<Vec<_>>()).replace(' ', ","))).collect();
+    o.counts.push(format!("multi:in_class,wrong_instances:{}", want.len().min(6)));
+    if got != want_s {
+        let class = if got.len() < want_s.len() { "list_missed_lint" } else if got.len() > want_s.len() { "list_spurious_lint" } else { "list_wrong_lint" };
+        o.fails.push((class, format!("text with {} ordinals ({} wrong): reported [{}], C17_lint_list promises [{}] (start end replacement)", m.insts.len(), want.len(), got.join("; "), want_s.join("; "))));
+    } else {
+        o.counts.push("oracle:held(list)".into());
+        if want.len() >= 2 {
+            o.nontrivial = true;
+        }
+    }
+    o
+}
+
+fn run_multi_batch(rep: &mut Report, specs: &[MultiSpec], threads: usize) {
+    if specs.is_empty() {
+        return;
+    }
+    let threads = threads.max(1).min(specs.len());
+    let chunk = (specs.len() + threads - 1) / threads;
+    let mut outs: Vec<Vec<Outcome>> = Vec::new();
+    std::thread::scope(|sc| {
+        let hs: Vec<_> = specs
+            .chunks(chunk.max(1))
+            .map(|part| {
+                sc.spawn(move || {
+                    hv::common::install_panic_hook();
+                    let mut im = Impl::new();
+                    part.iter().map(|m| run_multi_case(&mut im, m)).collect::<Vec<_>>()
+                })
+            })
+            .collect();
+        for h in hs {
+            outs.push(h.join().expect("worker thread died"));
+        }
+    });
+    let mut i = 0;
+    for part in outs {
+        for o in part {
+            let m = &specs[i];
+            i += 1;
+            rep.eval();
+            for (c, l) in &o.cases {
+                rep.case(c, l);
+            }
+            for (class, what) in &o.fails {
+                rep.fail(class, what.clone(), m.json());
+            }
+            for c in &o.counts {
+                rep.count(c);
+            }
+            rep.count(&format!("origin:{}", m.origin));
+            if o.nontrivial {
+                rep.nontrivial(&m.text());
+            }
+        }
+    }
+}
+
+/// a text with 0..6 ordinals: mostly inside the class (gaps from the covered separators, digits below 2^53 with the
+/// occasional leading zeros, right and wrong suffixes mixed), sometimes pushed outside it in one place
+fn multi_spec(r: &mut Rng) -> MultiSpec {
+    const GAP: &[&str] = &[" ", " ", ", ", " and ", " and the ", "; ", ". ", ".\n", "\n", "\n\n", " (", ") ", " - ", " — ", "/", ", then ", "'s ", "’s and ", " to ", "-", "… ", "! ", "? ", ": ", " \t", "  ", " in May, ", " = ", "...", " 世 ", " 😀"];
+    const BAD_GAP: &[&str] = &["", "a", " x", "th ", ".", ".x ", " [", " @ ", " 5 ", " ٣ ", "://", " a.b ", "s ", "'", " é"];
+    let k = match r.below(10) { 0 => 0, 1 => 1, 2 | 3 | 4 => 2, 5 | 6 => 3, 7 => 4, 8 => 5, _ => 6 } as usize;
+    let hostile = r.chance(1, 5);
+    let bad_at = if hostile { r.below(k + 1) as usize } else { usize::MAX };
+    let mut insts = vec![];
+    for j in 0..k {
+        let mut pre = String::new();
+        if j == 0 {
+            if r.chance(2, 3) {
+                for _ in 0..r.below(3) {
+                    pre.push_str(r.s(WORDS));
+                    pre.push_str(r.s(SEPS_BEFORE));
+                }
+            }
+        } else {
+            pre.push_str(r.s(GAP));
+            if r.chance(1, 3) {
+                pre.push_str(r.s(WORDS));
+                pre.push_str(r.s(&[" ", " ", ", ", " (", "\n"]));
+            }
+        }
+        if j == bad_at {
+            if r.chance(1, 2) { pre = r.s(BAD_GAP).to_string(); } else { pre.push_str(r.s(BAD_GAP)); }
+        }
+        let n = random_n(r);
+        let d = match r.below(12) {
+            0 => format!("{}{}", "0".repeat(1 + r.below(3)), n),
+            1 if hostile => format!("{}", (1u64 << 53) + r.below(1000) as u64),
+            _ => n.to_string(),
+        };
+        let dc: Vec<char> = d.chars().collect();
+        let sx = if r.chance(3, 5) {
+            let w = ordinal_of_decimal(&dc);
+            match r.below(4) { 0 => w.to_uppercase(), 1 => { let mut c = w.chars(); format!("{}{}", c.next().unwrap().to_ascii_uppercase(), c.next().unwrap()) } _ => w.to_string() }
+        } else if hostile && r.chance(1, 8) {
+            r.s(&["tt", "sd", "ts", "nt"]).to_string()
+        } else {
+            r.s(&CASINGS).to_string()
+        };
+        insts.push((pre, d, sx));
+    }
+    let mut post = String::new();
+    if r.chance(5, 6) {
+        post.push_str(r.s(SEPS_AFTER));
+        for _ in 0..r.below(3) {
+            if post.ends_with('.') {
+                post.push(' ');
+            }
+            post.push_str(r.s(WORDS));
+            post.push_str(r.s(SEPS_AFTER));
+        }
+    }
+    if bad_at == k && hostile {
+        post = format!("{}{}", r.s(&["s", "5", "a.b", " 7", "@x", " ://", ".com"]), post);
+    }
+    MultiSpec { insts, post, origin: if hostile { "multi_hostile" } else { "multi_ordinals" } }
+}
+
+// ------------------------------------------------------------------------------------------------
 // generators
 // ------------------------------------------------------------------------------------------------
 const CASINGS: [&str; 16] = ["st", "St", "sT", "ST", "nd", "Nd", "nD", "ND", "rd", "Rd", "rD", "RD", "th", "Th", "tH", "TH"];
@@ -609,7 +857,7 @@ fn spec(pre: &str, num: &str, sfx: &str, post: &str, origin: &'static str, lex_c
 }
 
 fn replay_spec(v: &Value) -> Option<Spec> {
-    if matches!(v.get("kind").and_then(|k| k.as_str()), Some("law") | Some("f64_digits") | Some("f64_bits")) {
+    if matches!(v.get("kind").and_then(|k| k.as_str()), Some("law") | Some("f64_digits") | Some("f64_bits") | Some("multi")) {
         return None;
     }
     let g = |k: &str| v.get(k).and_then(|x| x.as_str()).unwrap_or("").to_string();
@@ -806,12 +1054,14 @@ fn run_f64_stream(rep: &mut Report, r: &mut Rng, a: &Args) {
 fn main() {
     let (a, corpus) = hv::cli();
     let mut rep = Report::new(&a.out);
-    rep.rule = "texts pre ++ decimal(n) ++ suffix ++ post: corpus; documents in which the instance stands among other, correct ordinals (search only); `The <n><sfx> item.` for random n < 2^53 (teens of every hundred, powers of ten, 2^53-1 …) x 16 casings; contexts drawn inside the class covered by C17_lint_iff (oracle demanded) and hostile contexts outside it (letters, dots, brackets, digits glued on: correspondence with the model + deviations counted); the possessive position `<n><sfx>'s` (covered since dcfd71f); sentence positions from the shared grammar; a free-text stream and a lexer-edge stream (float literals around the f64 overflow threshold, plural-digit look-aheads: correspondence + two lexer postconditions); thorough adds every n < 10^5 x 16 casings and 10^6 random n < 2^53. non-trivial = distinct text with a wrong suffix for which the full oracle (one lint, exact span, exact suggestion, fix is a fix point) held".into();
+    rep.rule = "texts pre ++ decimal(n) ++ suffix ++ post: corpus; documents in which the instance stands among other, correct ordinals (search only); `The <n><sfx> item.` for random n < 2^53 (teens of every hundred, powers of ten, 2^53-1 …) x 16 casings; contexts drawn inside the class covered by C17_lint_iff (oracle demanded) and hostile contexts outside it (letters, dots, brackets, digits glued on: correspondence with the model + deviations counted); the possessive position `<n><sfx>'s` (covered since dcfd71f); structured texts with 0..6 ordinals (C17_lint_list: class membership compared with the model, inside the class the reported lints must be exactly the promised list); sentence positions from the shared grammar; a free-text stream and a lexer-edge stream (float literals around the f64 overflow threshold, plural-digit look-aheads: correspondence + two lexer postconditions); thorough adds every n < 10^5 x 16 casings and 10^6 random n < 2^53. non-trivial = distinct text with a wrong suffix for which the full oracle (one lint, exact span, exact suggestion, fix is a fix point) held".into();
     check_ascii_laws(&mut rep);
     let threads = std::thread::available_parallelism().map(|n| n.get()).unwrap_or(4).min(16);
     // corpus / replay first
     let cs: Vec<Spec> = corpus.iter().filter_map(replay_spec).collect();
     run_batch(&mut rep, &cs, 1);
+    let cm: Vec<MultiSpec> = corpus.iter().filter_map(replay_multi).collect();
+    run_multi_batch(&mut rep, &cm, 1);
     for v in &corpus {
         match v.get("kind").and_then(|k| k.as_str()) {
             Some("f64_digits") => run_f64_digits(&mut rep, v.get("digits").and_then(|x| x.as_str()).unwrap_or(""), "replay_f64"),
@@ -935,6 +1185,9 @@ fn main() {
         specs.push(spec(r.s(&["", "to ", "a."]), &n.to_string(), r.s(&CASINGS), &post, "url_email_glued", true));
     }
     run_batch(&mut rep, &specs, threads);
+    // (11) texts with several ordinals (C17_lint_list): the class, and inside it exactly the promised lints
+    let multis: Vec<MultiSpec> = (0..a.scale(1500, 60000)).map(|_| multi_spec(&mut r)).collect();
+    run_multi_batch(&mut rep, &multis, threads);
     run_f64_stream(&mut rep, &mut r, &a);
     if a.thorough() {
         // exhaustive: every n < 10^5 x 16 casings in the template; then 10^6 random n
